@@ -50,11 +50,13 @@ Theorem C01_state_is_replay_compact :
 Proof. exact compact_captures. Qed.
 Print Assumptions C01_state_is_replay_compact.
 
-(* loading a dump installs exactly the snapshot *)
+(* loading a dump installs exactly the snapshot (a received one, clear = true, only when it is
+   ahead of the node's position) *)
 Theorem C01_state_is_replay_load :
   forall (e : env) (clear : bool) (s : S) (sn : snapshot),
   stored (sr (nd s)) = Some (Good sn) ->
   s_ver sn <= self_ver (nd s) ->
+  (clear = true -> applied (nd s) < eidx (s_e1 sn)) ->
   let s' := load_dump e clear s in
   hist (nd s') = s_hist sn /\ enabled_ver (nd s') = s_ver sn /\ applied (nd s') = eidx (s_e1 sn) /\
   self_ver (nd s') = self_ver (nd s) /\ commit (nd s') = commit (nd s) /\
